@@ -55,14 +55,14 @@ SYSTEMS = {
         }},
 }
 
-# a solution with strongly negative g(r) (MSA with the hard-core flag on a repulsive tail at low temperature: g = 1 - u/kT
-# dips below -1 next to the core): nothing in the post-processing may "repair" the stored arrays
+# a solution with strongly negative g(r) (MSA with the hard-core flag on a repulsive exponential tail at low temperature:
+# g ~ 1 - u/kT is about -2 next to the core): nothing in the post-processing may "repair" the stored arrays
 SYSTEMS['neg'] = {
     'types': ['U', 'V'], 'kT': 0.5, 'domain': {'length': 128, 'dr': 0.1},
     'density': {'U': 0.05, 'V': 0.03}, 'diameter': {'U': 1.0, 'V': 1.2},
     'pairs': {
-        'U|U': {'closure': ['MSA', True], 'potential': ['WCA', {'epsilon': 1.0}], 'omega': ['SingleSite', {}]},
-        'U|V': {'closure': ['MSA', True], 'potential': ['WCA', {'epsilon': 1.5}], 'omega': ['NoIntra', {}]},
+        'U|U': {'closure': ['MSA', True], 'potential': ['EXP', {'epsilon': -1.5, 'alpha': 0.5}], 'omega': ['SingleSite', {}]},
+        'U|V': {'closure': ['MSA', True], 'potential': ['EXP', {'epsilon': -1.0, 'alpha': 0.4}], 'omega': ['NoIntra', {}]},
         'V|V': {'closure': ['PY', False], 'potential': ['HS', {}], 'omega': ['SingleSite', {}]},
     }}
 
